@@ -2,34 +2,28 @@ import Percival.Driver.Loop
 import Percival.Driver.Events
 import Percival.Spec.EventsMonitor
 /-! `pmodel eventsmon [c04|c05]`: the C04 / C05 monitors judging the *implementation's* trace
-    (the L1 part of every harness line).  Without an argument both monitors run. -/
+    (the L1 part of every harness line).  Without an argument both monitors run.  Thin by construction: the line
+    is parsed into events, `Spec.Events.monStep` judges them, the verdict is printed. -/
 namespace Percival.Driver.Eventsmon
 open Percival.Driver Percival.Spec.Events
 
-structure St where
-  m4 : Except String C04.M := .ok {}
-  m5 : Except String C05.M := .ok {}
+/-- `ok` (script / poll lines) carries no event; every other token must parse -/
+def parseLine (ans : List String) : Option (List Ev) :=
+  if ans = ["ok"] then some [] else ans.mapM Events.parseEv
 
-def feed4 (m : Except String C04.M) (evs : List Ev) : Except String C04.M := do C04.run (← m) evs
-def feed5 (m : Except String C05.M) (evs : List Ev) : Except String C05.M := do C05.run (← m) evs
+def render : Verdict → String
+  | .ok => "ok"
+  | .bad4 e => "bad C04: " ++ e
+  | .bad5 e => "bad C05: " ++ e
 
-def step (use4 use5 : Bool) (s : St) (_op ans : List String) : St × String :=
-  -- `ok` (script / poll lines) carries no event; every other token must parse
-  let toks := if ans = ["ok"] then [] else ans
-  match toks.mapM Events.parseEv with
+def step (use4 use5 : Bool) (s : MM) (_op ans : List String) : MM × String :=
+  match parseLine ans with
   | none => (s, "bad unparsable implementation trace")
-  | some evs =>
-    let m4 := if use4 then feed4 s.m4 evs else s.m4
-    let m5 := if use5 then feed5 s.m5 evs else s.m5
-    let s' : St := { m4, m5 }
-    match m4, m5 with
-    | .error e, _ => (s', "bad C04: " ++ e)
-    | _, .error e => (s', "bad C05: " ++ e)
-    | _, _ => (s', "ok")
+  | some evs => let r := monStep use4 use5 s evs; (r.1, render r.2)
 
 def main (args : List String) : IO UInt32 :=
   let use4 := args.isEmpty || args.contains "c04"
   let use5 := args.isEmpty || args.contains "c05"
-  loopMon ({} : St) (step use4 use5)
+  loopMon ({} : MM) (step use4 use5)
 
 end Percival.Driver.Eventsmon
